@@ -287,6 +287,14 @@ class Builder:
             built_args = (self.build(arg, context, gate_context) for arg in gate_args)
             gate = gate_def(*built_args)
             self.gate_memo.set(memo_key, gate)
+        if (
+            isinstance(gate.gate_def, Macro)
+            and self.is_in_block_context(context, ["subcircuit", "parallel"])
+            and contains_subcircuit(gate.gate_def.body)
+        ):
+            raise JaqalError(
+                f"Nesting subcircuit (in macro {gate_name}) in subcircuit or parallel block"
+            )
         return gate
 
     def get_gate_definition(self, name, arg_count, gate_context):
@@ -391,6 +399,20 @@ class Builder:
             # them not comparing equal in tests.
             name = str(name)
         return UsePulsesStatement(name, all, import_path=self.import_path)
+
+
+def contains_subcircuit(statement):
+    """Return whether a subcircuit block occurs in this statement, directly
+    or through the macros it calls."""
+    if isinstance(statement, GateStatement):
+        return isinstance(statement.gate_def, Macro) and contains_subcircuit(
+            statement.gate_def.body
+        )
+    if isinstance(statement, BlockStatement) and statement.subcircuit:
+        return True
+    if isinstance(statement, (BlockStatement, LoopStatement)):
+        return any(contains_subcircuit(stmt) for stmt in statement.statements)
+    return False
 
 
 def rebuild_macro_in_context(macro, context, gate_context):
